@@ -1,2 +1,56 @@
-From Cmr Require Import Base Det TextModel.
-Theorem placeholder_C20 : True. Proof. exact I. Qed.
+(* Properties_C20.v — C20: produced matrices are well-formed; text formats round-trip; bad text rejected. *)
+From Cmr Require Import Base BaseProofs TextModel TextProofs.
+Local Open Scope Z_scope.
+
+(* The raw arrays of a well-formed sparse matrix and its dense form determine each other: decoding the library's CSR
+   arrays (under csr_wf) loses nothing, and every dense matrix has exactly one well-formed CSR form. *)
+Theorem C20_csr_dense_bijection_1 : forall m n M, wf_mat m n M = true ->
+  csr_wf (csr_of_dense m n M) = true /\ dense_of_csr (csr_of_dense m n M) = M.
+Proof. intros m n M H. split; [exact (csr_of_dense_wf m n M H) | exact (dense_of_csr_of_dense m n M H)]. Qed.
+Print Assumptions C20_csr_dense_bijection_1.
+
+Theorem C20_csr_dense_bijection_2 : forall s, csr_wf s = true ->
+  csr_of_dense (c_rows s) (c_cols s) (dense_of_csr s) = s.
+Proof. exact csr_of_dense_of_csr. Qed.
+Print Assumptions C20_csr_dense_bijection_2.
+
+(* text round trip on the model of the documented formats: printing a matrix whose values fit the target type and
+   parsing it back gives the same matrix (sizes up to 100000, the parser's sanity bound, stated in the theorem) *)
+Theorem C20_parse_print_dense : forall ty m n M,
+  wf_mat m n M = true -> forallb (forallb (fits ty)) M = true ->
+  Z.of_nat m <= 100000 -> Z.of_nat n <= 100000 ->
+  parse_dense ty (print_dense m n M) = TOk m n M.
+Proof. exact parse_print_dense. Qed.
+Print Assumptions C20_parse_print_dense.
+
+Theorem C20_parse_print_sparse : forall ty m n M,
+  wf_mat m n M = true -> forallb (forallb (fits ty)) M = true ->
+  Z.of_nat m <= 100000 -> Z.of_nat n <= 100000 ->
+  Z.of_nat (length (sparse_triples m n M)) <= 100000 ->
+  parse_sparse ty (print_sparse m n M) = TOk m n M.
+Proof. exact parse_print_sparse. Qed.
+Print Assumptions C20_parse_print_sparse.
+
+(* whatever the parser accepts is a well-formed matrix whose values fit the target type *)
+Theorem C20_parse_ok_wf : forall fmt ty bytes m n M,
+  parse fmt ty bytes = TOk m n M -> wf_mat m n M = true /\ forallb (forallb (fits ty)) M = true.
+Proof. exact parse_ok_wf. Qed.
+Print Assumptions C20_parse_ok_wf.
+
+(* reader judge: accepted means the library accepted exactly what the documented grammar accepts, with the same
+   matrix, and rejected (non-zero status) what it rejects *)
+Theorem C20_reader_judge_sound : forall rec fmt ty bytes rc res rest,
+  textread_input rec = Some ((fmt, ty, bytes, rc, res), rest) -> judge_textread rec = 0 ->
+  (parse fmt ty bytes = TErr -> rc <> 0) /\
+  (forall m n M, parse fmt ty bytes = TOk m n M -> rc = 0 /\ res = Some (m, n, M)).
+Proof. exact judge_textread_sound. Qed.
+Print Assumptions C20_reader_judge_sound.
+
+(* writer judge: the bytes the library printed denote (by the documented grammar) the matrix it was given, and the
+   library reads them back to an equal matrix *)
+Theorem C20_writer_judge_sound : forall rec fmt ty m n M bytes rc2 res rest,
+  textwrite_input rec = Some ((fmt, ty, (m, n, M), bytes, rc2, res), rest) -> judge_textwrite rec = 0 ->
+  forallb (forallb (fits ty)) M = true ->
+  parse fmt ty bytes = TOk m n M /\ rc2 = 0 /\ res = Some (m, n, M).
+Proof. exact judge_textwrite_sound. Qed.
+Print Assumptions C20_writer_judge_sound.
